@@ -123,6 +123,23 @@ func c01r8(c *Ctx) {
 		for _, s := range c.P.EffectSites(r.Entry, "otdata", isData) {
 			st := s.In.(*ssa.Store)
 			ds := dataStringOf(c.P, st)
+			// a message that is the content of a buffer the call does not own (taken from a pool, a field, a parameter): it is
+			// still referenced by whoever owns the buffer — the next message written into it replaces this one while it is in
+			// flight, and the tokens debited for it are credited according to another message
+			if bc, ok := st.Val.(*ssa.Call); ok && CalleeName(bc) == "(*bytes.Buffer).Bytes" {
+				private := false
+				switch rb := bc.Call.Args[0].(type) {
+				case *ssa.Alloc:
+					private = true
+				case *ssa.Call:
+					private = CalleeName(rb) == "bytes.NewBuffer" || CalleeName(rb) == "bytes.NewBufferString"
+				}
+				if !private {
+					c.FailX(Oblig{Rule: rule, Func: FuncName(st.Parent()), Construct: name + ": the emitted message is the call's own memory in " + s.Chain(), Pos: c.P.InstrPos(st), Kind: "violation",
+						Detail:   "OutputTransfer.Data is the content of a buffer that is not private to the call (" + s.Env.Term(bc.Call.Args[0]) + "): the message stays aliased to that buffer after the call returns — the next message built in it overwrites this one while it is in flight, so what the destination credits is not what the sender debited",
+						Expected: "Data built in memory allocated by the call (or copied out of the shared buffer before it is handed back)"})
+				}
+			}
 			if ds == nil {
 				continue
 			}
